@@ -23,6 +23,7 @@ pub fn main(args: &[String]) -> i32 {
 		if crate::util::skip_case(case_no) {
 			continue
 		}
+		crate::util::watch_begin(&out, &[114, case_no]);
 		let _ = std::fs::remove_dir_all(&dir);
 		let multipart = rng.chance(1, 2);
 		// a fixed tier: values of exactly the tier's capacity (so that they land in it); the multi-part table: chains of 9-14 slots
@@ -84,6 +85,7 @@ pub fn main(args: &[String]) -> i32 {
 		if res.is_err() {
 			verdict = Err("panic in an allocator history".into());
 		}
+		crate::util::watch_end();
 		out.case(&case);
 		out.obs(&obs);
 		match verdict {
